@@ -547,6 +547,83 @@ func decodedListField(sl ssa.Value) (string, bool) {
 	return owner.Obj().Name() + "." + fname, true
 }
 
+// listElementsValidated: the element load `use` is only reached after a loop over the same list
+// field of the same object that leaves (towards a failure) as soon as it meets a nil element —
+// in the function of the use, in every caller, or in a validator whose success is established
+// (`if err := req.validate(); err != nil { return }` … `for _, s := range req.Sources { s.Name }`).
+func (n *nilAnalysis) listElementsValidated(use *ssa.UnOp, list ssa.Value) bool {
+	ld, ok := core.Strip(list).(*ssa.UnOp)
+	if !ok || ld.Op != token.MUL {
+		return false
+	}
+	base, path := fieldPathOf(ld.X)
+	if len(path) == 0 || base == nil {
+		return false
+	}
+	return n.p.InAllContexts(use, []ssa.Value{n.resolveAt(base)}, nil, func(at ssa.Instruction, vals []ssa.Value) bool {
+		return vals[0] != nil && n.listCheckedBefore(at, vals[0], path)
+	})
+}
+
+func (n *nilAnalysis) listCheckedBefore(at ssa.Instruction, base ssa.Value, path []int) bool {
+	fn := at.Parent()
+	for _, b := range fn.Blocks {
+		for _, in := range b.Instrs {
+			ia, ok := in.(*ssa.IndexAddr)
+			if !ok {
+				continue
+			}
+			l2, ok := core.Strip(n.resolveAt(ia.X)).(*ssa.UnOp)
+			if !ok || l2.Op != token.MUL {
+				continue
+			}
+			b2, p2 := fieldPathOf(l2.X)
+			if len(p2) == 0 || !samePath(p2, path) {
+				continue
+			}
+			rb := n.resolveAt(b2)
+			if rb != base && !n.same(rb, base) && core.Resolve(rb) != core.Resolve(base) {
+				continue
+			}
+			loop := loopOf(ia.Block())
+			if loop == nil || loop[at.Block()] {
+				continue
+			}
+			h := loopHeaderOf(loop)
+			if h == nil || !h.Dominates(at.Block()) {
+				continue
+			}
+			// the element is compared with nil and the nil edge leaves the loop without coming back to `at`
+			for _, r := range core.Referrers(ia) {
+				el, ok := r.(*ssa.UnOp)
+				if !ok || el.Op != token.MUL {
+					continue
+				}
+				for _, rr := range core.Referrers(el) {
+					bin, ok := rr.(*ssa.BinOp)
+					if !ok || (bin.Op != token.EQL && bin.Op != token.NEQ) || !(core.IsNilConst(bin.X) || core.IsNilConst(bin.Y)) {
+						continue
+					}
+					for _, br := range core.Referrers(bin) {
+						ifi, ok := br.(*ssa.If)
+						if !ok {
+							continue
+						}
+						nilSucc := ifi.Block().Succs[0]
+						if bin.Op == token.NEQ {
+							nilSucc = ifi.Block().Succs[1]
+						}
+						if !loop[nilSucc] && nilSucc != at.Block() && !core.ReachableFrom(nilSucc, true)[at.Block()] {
+							return true
+						}
+					}
+				}
+			}
+		}
+	}
+	return false
+}
+
 // decodeTargets: cells whose address is handed to a JSON decoder.
 func decodeTarget(cell *ssa.Alloc) bool {
 	for _, f := range core.Family(core.Root(cell.Parent())) {
@@ -672,6 +749,9 @@ func (n *nilAnalysis) evalRaw(v ssa.Value, at *ssa.BasicBlock, seen map[ssa.Valu
 		if ia, ok := x.X.(*ssa.IndexAddr); ok {
 			// element of a list field of a JSON-decoded request struct: `[null]` decodes to a nil element
 			if lbl, ok := decodedListField(n.resolveAt(ia.X)); ok {
+				if n.listElementsValidated(x, n.resolveAt(ia.X)) {
+					return nilEval{kind: nkNever, raw: nkWithFail, label: "element of JSON-decoded list " + lbl + " (every element was checked by a validating loop before this point)"}
+				}
 				return nilEval{kind: nkMaybe, raw: nkMaybe, label: "element of JSON-decoded list " + lbl + " (a `null` element decodes to nil)"}
 			}
 			// element of a locally built slice: union over everything appended to it
